@@ -63,7 +63,38 @@ func applyNetPolicies(ctx context.Context, kc kubernetes.Interface, b *netPolBui
 		}
 	}
 
-	return err
+	if err != nil || len(policies) == 0 {
+		return err
+	}
+
+	// remove policies left over from an earlier version of the manifest (a service that no
+	// longer exposes a port directly has no policy any more): they would keep its old ports open
+	current := make(map[string]bool, len(policies))
+	for _, pol := range policies {
+		current[pol.Name] = true
+	}
+
+	existing, err := kc.NetworkingV1().NetworkPolicies(b.ns()).List(ctx, metav1.ListOptions{
+		LabelSelector: akashManagedLabelName + "=true",
+	})
+	metricsutils.IncCounterVecWithLabelValues(kubeCallsCounter, "networking-policies-list", err)
+	if err != nil {
+		return err
+	}
+
+	for i := range existing.Items {
+		name := existing.Items[i].Name
+		if current[name] {
+			continue
+		}
+		err = kc.NetworkingV1().NetworkPolicies(b.ns()).Delete(ctx, name, metav1.DeleteOptions{})
+		metricsutils.IncCounterVecWithLabelValuesFiltered(kubeCallsCounter, "networking-policies-delete", err, errors.IsNotFound)
+		if err != nil && !errors.IsNotFound(err) {
+			return err
+		}
+	}
+
+	return nil
 }
 
 // TODO: re-enable.  see #946
